@@ -123,7 +123,7 @@ def LightDeviceInfo():
     return Maybe(Obj("bacpypes.app:DeviceInfo", deviceIdentifier=Token(), address=Token(), maxApduLengthAccepted=Const(1024),
                       segmentationSupported=Const('segmentedBoth'), maxSegmentsAccepted=Const(None), vendorID=Token(), maxNpduLength=Const(None)))
 
-def SSMObj(cls, context=None, states=None, device_info=None, full=False, live=None, **over):
+def SSMObj(cls, context=None, states=None, device_info=None, full=False, live=None, learned=False, **over):
     """a transaction of class cls in an arbitrary state, registered with its access point exactly when it is live"""
     def build(b, name):
         sap = object.__new__(StateMachineAccessPoint)
@@ -164,6 +164,14 @@ def SSMObj(cls, context=None, states=None, device_info=None, full=False, live=No
             tr.__dict__[k] = sh.build(b, name + '.' + k)
         if cls is ServerSSM and 'segmented_response_accepted' not in over:
             tr.segmented_response_accepted = Bool().build(b, name + '.segmented_response_accepted')
+        # what the cache says about the peer is independent of what the transaction holds (a record's address key moves when the device
+        # re-announces itself from another address): empty here, or -- learned=True -- a record entered while the transaction was under
+        # way (an I-Am arrived meanwhile), which the transaction does not hold
+        if learned:
+            fresh = object.__new__(DeviceInfo)
+            fresh.__dict__.update(deviceIdentifier=Tok('learned id'), address=tr.pdu_address, maxApduLengthAccepted=1024, segmentationSupported='segmentedBoth',
+                                  maxSegmentsAccepted=None, vendorID=Tok('vendor'), maxNpduLength=None, _ref_count=0)
+            cache.cache[tr.pdu_address] = fresh
         # registered exactly when live: decided by the symbolic state
         lst = sap.clientTransactions if cls is ClientSSM else sap.serverTransactions
         # another live transaction of the same access point (any invoke ID, another peer): it must never be touched
@@ -223,6 +231,20 @@ def sender_inv(tr):
 def receiver_inv(tr):
     return (tr.actualWindowSize is not None and tr.lastSequenceNumber is not None and tr.initialSequenceNumber is not None
             and 0 <= tr.lastSequenceNumber <= 255 and 0 <= tr.initialSequenceNumber <= 255)
+
+def record_released_ok(tr, was_terminal, calls):
+    """the peer's record goes back to the cache exactly once, exactly when the transaction ends, and it is the record the transaction
+    acquired at its creation -- whatever the cache has learned about the peer in the meantime; no other record is touched"""
+    held = tr.device_info
+    mine = [c for c in calls if len(c) > 0 and held is not None and c[0] is held]
+    foreign = [c for c in calls if len(c) > 0 and isinstance(c[0], DeviceInfo) and c[0] is not held]
+    if len(foreign) != 0:
+        return False
+    if terminal(tr) and not was_terminal and held is not None:
+        return len(mine) == 1
+    return len(mine) == 0
+
+_RELEASE_ENS = "record_released_ok(self, old(terminal(self)), trace('cache'))"
 
 def inv_client(tr):
     s = tr.state
@@ -375,7 +397,7 @@ _WINDOW_REQ = "self.actualWindowSize is None or self.actualWindowSize <= %d" % W
 for _st in (SEGMENTED_REQUEST, AWAIT_CONFIRMATION, SEGMENTED_CONFIRMATION):
     for _kn, _mk in _CLIENT_KINDS.items():
         _req = ["inv_client(self)", "apdu.apduInvokeID == self.invokeID", _WINDOW_REQ]
-        _ens = ["inv_client(self)", "client_outcome_ok(self, trace('to_app'))", "frames_ok(self, trace_then('to_net'))"]
+        _ens = ["inv_client(self)", "client_outcome_ok(self, trace('to_app'))", "frames_ok(self, trace_then('to_net'))", _RELEASE_ENS]
         if _st == SEGMENTED_REQUEST and _kn == "SegmentAck":
             _req.append("honest_ack(self, apdu)")
             _ens.append("sender_ack_ok(self, apdu, SEGMENTED_REQUEST, old(self.initialSequenceNumber), old(self.sentAllSegments), old(self.segmentRetryCount), "
@@ -411,7 +433,7 @@ def resend_ok(tr, to_net, old_data):
     return window_sent(tr, tr.initialSequenceNumber, to_net, old_data)
 
 for _st in (SEGMENTED_REQUEST, AWAIT_CONFIRMATION, SEGMENTED_CONFIRMATION, COMPLETED, ABORTED):
-    _ens = ["inv_client(self)", "old(terminal(self)) or client_outcome_ok(self, trace('to_app'))", "frames_ok(self, trace_then('to_net'))",
+    _ens = ["inv_client(self)", "old(terminal(self)) or client_outcome_ok(self, trace('to_app'))", "frames_ok(self, trace_then('to_net'))", _RELEASE_ENS,
             # once the outcome is delivered nothing more is emitted for the transaction
             "not old(terminal(self)) or (len(trace('to_app')) == 0 and len(trace('to_net')) == 0 and self.state == old(self.state))",
             # bounded time under silence: a timeout ends the transaction or strictly decreases the retry budget while re-arming a timer
@@ -425,6 +447,21 @@ for _st in (SEGMENTED_REQUEST, AWAIT_CONFIRMATION, SEGMENTED_CONFIRMATION, COMPL
         params={"self": SSMObj(ClientSSM, states=(_st,), context=(Maybe(ComplexAck()) if _st == SEGMENTED_CONFIRMATION else None))},
         requires=["inv_client(self)", _WINDOW_REQ, "terminal(self) or self.isScheduled == True"],
         ensures=_ens, modifies=_CLIENT_MOD, max_paths=40000)
+
+# the peer is entered into the device-info cache while a request to it is outstanding (its I-Am arrives): the transaction, which holds no
+# record, ends as usual -- one outcome, nothing released that it never acquired
+contract("bacpypes.appservice:ClientSSM.process_task", name="bacpypes.appservice:ClientSSM.process_task[AWAIT_CONFIRMATION, peer learned meanwhile]",
+    params={"self": SSMObj(ClientSSM, states=(AWAIT_CONFIRMATION,), device_info=Const(None), learned=True)},
+    requires=["inv_client(self)", _WINDOW_REQ, "self.isScheduled == True"],
+    ensures=["inv_client(self)", "client_outcome_ok(self, trace('to_app'))", _RELEASE_ENS,
+             "terminal(self) or retry_measure(self) < old(retry_measure(self))"],
+    modifies=_CLIENT_MOD, max_paths=40000)
+
+contract("bacpypes.appservice:ClientSSM.confirmation", name="bacpypes.appservice:ClientSSM.confirmation[AWAIT_CONFIRMATION, SimpleAck, peer learned meanwhile]",
+    params={"self": SSMObj(ClientSSM, states=(AWAIT_CONFIRMATION,), device_info=Const(None), learned=True), "apdu": _CLIENT_KINDS["SimpleAck"]()},
+    requires=["inv_client(self)", "apdu.apduInvokeID == self.invokeID", _WINDOW_REQ],
+    ensures=["inv_client(self)", "client_outcome_ok(self, trace('to_app'))", _RELEASE_ENS, "terminal(self)"],
+    modifies=_CLIENT_MOD, max_paths=40000)
 
 def peer_limit(tr):
     """largest APDU the peer announced it accepts (None: nothing known)"""
